@@ -302,6 +302,7 @@ func GenerateTwins(seed uint64, idFlat, idEmb string) (*sdl.Program, *sdl.Progra
 	k.PEmbed = 0
 	k.PDup = 0
 	k.MaxTypes = 4
+	k.PProcComp, k.PZero = 0, 0
 	p := genGraph(r, seed, idFlat, FamEmbed, k)
 	// configuration: one raw source, a few fields that never fail
 	src := &sdl.Source{ID: "src0", Kind: "raw", Via: "SetConfigLoader", Doc: genDoc(r, 0.9)}
